@@ -303,6 +303,11 @@ func (store ItemVarStore) GetDelta(index VariationStoreIndex, coords []Coord) fl
 		return 0
 	}
 	deltaSet := varData.DeltaSets[index.DeltaSetInner]
+	if len(varData.RegionIndexes) > len(store.VariationRegionList.VariationRegions) {
+		// invalid subtable: a region is referenced at most once
+		// (the work done here is then bounded by the size of the region list)
+		return 0
+	}
 	var delta float32
 	for i, regionIndex := range varData.RegionIndexes {
 		if int(regionIndex) >= len(store.VariationRegionList.VariationRegions) { // invalid region index
